@@ -340,7 +340,7 @@ func c17Gen(c *Ctx) {
 	for i := 0; i < c.N(1000, 50000); i++ {
 		n := c.Rng.Intn(40)
 		if c.Rng.Intn(50) == 0 {
-			n = 3000 + c.Rng.Intn(c.N(3000, 13000))
+			n = 3000 + c.Rng.Intn(c.P(3000, 13000))
 		}
 		rs := make([]rune, n)
 		for j := range rs {
